@@ -16,10 +16,20 @@ def probe_reads(keys, revs):
     return lines
 
 
-def gen_case(seed, i, engine, mask, skipped=None):
+SKIP_KEYS = [PREFIX + b"/a/x", PREFIX + b"/a/b/y", PREFIX + b"/a/b/c/z", PREFIX + b"/c/k", PREFIX + b"/d", PREFIX + b"/a-b", PREFIX + b"/ab/k"]
+# skipped-prefix configurations: single, nested, duplicate, sibling pairs, foreign (outside the key prefix), parent of the
+# key prefix, with and without trailing slash
+SKIP_CONFIGS = [
+    [PREFIX + b"/a"], [PREFIX + b"/a", PREFIX + b"/a/b"], [PREFIX + b"/a/b", PREFIX + b"/a"], [PREFIX + b"/a", PREFIX + b"/a"],
+    [PREFIX + b"/a/b", PREFIX + b"/c"], [PREFIX + b"2/x"], [PREFIX + b"2/x", PREFIX + b"/a"], [b"/q", PREFIX + b"/c"],
+    [PREFIX + b"/a/", PREFIX + b"/a/b/c"], [PREFIX + b"/a/b", PREFIX + b"/a/b", PREFIX + b"/a"], [PREFIX + b"/a/b/c", PREFIX + b"/a", PREFIX + b"/c", PREFIX + b"/a/b"],
+]
+
+
+def gen_case(seed, i, engine, mask, skipped=None, keys=None):
     """history -> probes -> compact R with mask -> same probes -> writes on every key -> reads"""
     r = rng_for(seed, "c07/%d" % i)
-    keys = r.sample([k for k in KEY_POOL if b"events" not in k], r.randint(2, 5))
+    keys = keys or r.sample([k for k in KEY_POOL if b"events" not in k], r.randint(2, 5))
     sh = hist.Shadow()
     kw = {}
     if skipped:
@@ -70,7 +80,7 @@ def oracle(case):
             for kv in d.split()[1].split(","):
                 k = bytes.fromhex(kv.split("=")[0])
                 raw = k[4:-9] if k.startswith(b"\x57\xfb\x80\x8b") else k
-                if any(raw.startswith(s + b"/") or raw.startswith(s) and s.endswith(b"/") for s in case.meta["skipped"]):
+                if any(raw.startswith(s if s.endswith(b"/") else s + b"/") for s in case.meta["skipped"]):
                     res.append(kv)
             return res
         if outside(dumps[0]) != outside(dumps[1]):
@@ -151,6 +161,9 @@ def check(rep, tier, seed):
             eng = (ENGINES + ["metrics-memkv", "metrics-tikv"])[(i + len(m)) % 5]   # metrics-: failures injected BELOW the storage-metrics wrapper
             sk = [PREFIX + b"/a"] if i % 4 == 3 else None
             cases.append(gen_case(seed, i, eng, m, sk))
+    # skipped-prefix configurations (the property quantifies over all of them)
+    for j, sk in enumerate(SKIP_CONFIGS if tier == "quick" else SKIP_CONFIGS * 6):
+        cases.append(gen_case(seed, 900 + j, ENGINES[j % 3], "", sk, keys=SKIP_KEYS))
     races = [race_case(seed, i, ["tikv", "tikv", "memkv", "badger"][i % 4]) for i in range(24 if tier == "quick" else 600)]
     cases += races
     core.run_cases(cases)
